@@ -1667,7 +1667,6 @@ def read_index(file, name, index, tindex, stop=b'\377' * 8,
 
         if tid <= ltid:
             logger.warning("%s time-stamp reduction at %s", name, pos)
-        ltid = tid
 
         if pos + (tl + 8) > file_size or status == 'c':
             # Hm, the data were truncated or the checkpoint flag wasn't
@@ -1710,6 +1709,10 @@ def read_index(file, name, index, tindex, stop=b'\377' * 8,
 
         if tid >= stop:
             break
+
+        # Only a transaction that is accepted counts as the last one
+        # (not a checkpointed or cut-short tail that is about to be dropped).
+        ltid = tid
 
         tpos = pos
         tend = tpos + tl
